@@ -213,6 +213,9 @@ impl WalManager {
 
         // Check if we need to rotate
         let needs_rotation = log_file.size >= self.config.max_log_size;
+        #[cfg(grafeo_verif)]
+        let needs_rotation = needs_rotation
+            || log_file.size >= grafeo_common::verif::override_u64("wal.max_log_size", u64::MAX);
 
         // Handle durability mode
         match &self.config.durability {
@@ -221,6 +224,8 @@ impl WalManager {
                 if matches!(record, WalRecord::TxCommit { .. }) {
                     log_file.writer.flush()?;
                     log_file.writer.get_ref().sync_all()?;
+                    #[cfg(grafeo_verif)]
+                    grafeo_common::verif::event("wal.sync", log_file.sequence, log_file.size);
                     self.records_since_sync.store(0, Ordering::Relaxed);
                     *self.last_sync.lock() = Instant::now();
                 }
@@ -235,6 +240,8 @@ impl WalManager {
                 if records >= *max_records || elapsed >= Duration::from_millis(*max_delay_ms) {
                     log_file.writer.flush()?;
                     log_file.writer.get_ref().sync_all()?;
+                    #[cfg(grafeo_verif)]
+                    grafeo_common::verif::event("wal.sync", log_file.sequence, log_file.size);
                     self.records_since_sync.store(0, Ordering::Relaxed);
                     *self.last_sync.lock() = Instant::now();
                 }
@@ -320,9 +327,13 @@ impl WalManager {
         file.write_all(&data)?;
         file.sync_all()?;
         drop(file);
+        #[cfg(grafeo_verif)]
+        grafeo_common::verif::event("wal.ckpt.tmp_written", metadata.log_sequence, 0);
 
         // Atomic rename
         fs::rename(&temp_path, &metadata_path)?;
+        #[cfg(grafeo_verif)]
+        grafeo_common::verif::event("wal.ckpt.renamed", metadata.log_sequence, 0);
 
         Ok(())
     }
@@ -378,6 +389,8 @@ impl WalManager {
             drop(old_log);
         }
         *guard = Some(new_log);
+        #[cfg(grafeo_verif)]
+        grafeo_common::verif::event("wal.rotate", new_sequence, 0);
 
         Ok(())
     }
@@ -405,6 +418,8 @@ impl WalManager {
         if let Some(log_file) = guard.as_mut() {
             log_file.writer.flush()?;
             log_file.writer.get_ref().sync_all()?;
+            #[cfg(grafeo_verif)]
+            grafeo_common::verif::event("wal.sync", log_file.sequence, log_file.size);
         }
         self.records_since_sync.store(0, Ordering::Relaxed);
         *self.last_sync.lock() = Instant::now();
